@@ -113,18 +113,21 @@ static std::vector<std::string> sched_gen(const GenArgs &ga) {
   int nslots = 1 + (int)sw.below(3);
   bool init_first = sw.chance(1, 3);   // some tasks start with orc_init(), others rely on the wrappers
   // a quarter of the runs also meet an unreliable OS while they compile concurrently
-  static const char *fsmodes[] = {"ok", "ok", "ok", "flaky-mmap", "flaky-mkstemp", "noexec-dirs", "all-denied"};
-  std::string fsmode = fsmodes[sw.below(7)];
+  static const char *fsmodes[] = {"ok", "ok", "ok", "flaky-mmap", "flaky-mkstemp", "noexec-dirs", "all-denied", "windows", "windows"};
+  std::string fsmode = fsmodes[sw.below(9)];
   pl.push_back(strf("cfg tasks=%d strategy=%s p=%d pct_d=%d schedseed=%llu slots=%d fs=%s", ntasks, st.c_str(), pden[sw.below(6)],
                     1 + (int)sw.below(3), (unsigned long long)(stream(ga.seed, ST_SCHED).next() >> 8), nslots, fsmode.c_str()));
   int ops_per_task = 2 + (int)sw.below(thorough ? 7 : 5);
   // workload mix is itself a swarm choice
   int w_wrapper = 2 + (int)sw.below(6), w_private = (int)sw.below(5), w_publish = (int)sw.below(4), w_use = (int)sw.below(5),
-      w_take = (int)sw.below(3), w_churn = (int)sw.below(4), w_hoard = sw.chance(1, 3) ? 3 : 0, w_init = 1;
+      w_take = (int)sw.below(3), w_churn = (int)sw.below(4), w_hoard = (sw.chance(1, 3) || fsmode == "windows") ? 3 : 0, w_init = 1;
+  // "windows": tasks open and close windows in which the OS refuses every executable mapping, while they and the
+  // others keep compiling (and hoarding, so that new regions are needed inside such windows)
+  int w_window = fsmode == "windows" ? 3 : 0;
   for (int t = 0; t < ntasks; t++) {
     for (int i = 0; i < ops_per_task; i++) {
       std::string l = strf("t%d op ", t);
-      int tot = w_wrapper + w_private + w_publish + w_use + w_take + w_churn + w_hoard + w_init;
+      int tot = w_wrapper + w_private + w_publish + w_use + w_take + w_churn + w_hoard + w_window + w_init;
       int x = (int)pr.below(tot);
       if (i == 0 && init_first && pr.chance(1, 2)) x = tot - 1;
       else if (i == 0 && pr.chance(1, 2)) x = 0;   // first calls of wrappers race
@@ -149,6 +152,8 @@ static std::vector<std::string> sched_gen(const GenArgs &ga) {
       } else if ((x -= w_churn) < 0) {
         l += strf("churn spec=gen:%llu:%d:8:1 n=%d ds=%llu", (unsigned long long)(pr.next() >> 16), 1 + (int)pr.below(20), 1 + (int)pr.below(40),
                   (unsigned long long)(dr.next() >> 20));
+      } else if ((x -= w_window) < 0) {
+        l += strf("oswindow state=%s", pr.chance(1, 2) ? "deny" : "allow");
       } else if ((x -= w_hoard) < 0) {
         // several large functions kept alive until the task ends: regions fill up and new ones are
         // created while other tasks allocate and free
@@ -256,7 +261,7 @@ static void run_and_check(int tid, OrcProgram *p, OrcCode *code, const ProgMeta 
   make_inputs(meta, ds, n, a);
   make_inputs(meta, ds, n, b);
   run_with(p, code, meta, mode, a);
-  run_with(twin, nullptr, meta, RUN_EMULATE, b);
+  reference_emulate(twin, meta, b);
   g_ctx->results_hash = mix2(g_ctx->results_hash, hash_outputs(meta, a));
   if (meta.has_float && mode != RUN_EMULATE) return;
   std::string d = compare_outputs(meta, a, b);
@@ -420,6 +425,12 @@ static void task_main(int tid) {
     else if (op == "use") op_use(tid, w);
     else if (op == "take") op_take(tid, w);
     else if (op == "hoard") op_hoard(tid, w, (int)i, held);
+    else if (op == "oswindow") {
+      bool deny = kv(w, "state", "deny") == "deny";
+      fs::set_dir("/tmp", deny ? fs::P_NOEXEC : fs::P_OK);
+      fs::set_execmem(!deny);
+      g_ctx->c->count(deny ? "sched.os_window_opened" : "sched.os_window_closed");
+    }
     g_ctx->ops_done++;
     rt::yield_hint();
   }
